@@ -6,7 +6,7 @@ CONSTANTS Deltas = {0, 10, 21}
   Cap = 32
   Ignores = {"none", "client", "server"}
   Variant = "code"
-  Scripts1 = {1, 2, 3, 4, 5, 6, 7, 8, 9, 10, 11, 12, 13, 14, 15, 16}
+  Scripts1 = {1, 2, 3, 4, 5, 6, 7, 8, 9, 10, 11, 12, 13, 14, 15, 16, 17}
   Scripts2 = {9}
 INVARIANTS Conforms SameLive Bounded
 CHECK_DEADLOCK FALSE
